@@ -46,6 +46,7 @@ type C15Plan struct {
 	Fault     OutFault   `json:"fault"`
 	Sweep     bool       `json:"sweep,omitempty"` // fsize = every n in 0..len(output)
 	PreExist  bool       `json:"pre_exist,omitempty"`
+	PreLink   bool       `json:"pre_link,omitempty"` // the pre-existing -o name is a symbolic link to the existing file
 	SameAs    string     `json:"same_as,omitempty"`  // -o names: input | identity | recipients
 	Spelling  string     `json:"spelling,omitempty"` // dot | dotdot | abs | plain
 	Umask     int        `json:"umask,omitempty"`
@@ -72,7 +73,7 @@ func (C15) Meta() core.Meta {
 		Real:        []string{"cmd/age and cmd/age-keygen binaries built from the working tree", "Linux kernel: files, pipes, RLIMIT_FSIZE, /dev/full"},
 		Stub:        []string{"argv, environment, input files, identity/recipient files, file descriptors and limits (the plan)"},
 		FaultKinds:  []string{"fault.fsize", "fault.nodir", "fault.isdir", "fault.devfull", "fault.closedpipe", "fault.damage_header", "fault.damage_payload", "fault.damage_trunc", "fault.damage_trunc_chunk", "fault.no_matching_identity"},
-		Probes:      []string{"probe.exit0_complete", "probe.exit_nonzero", "probe.killed_by_signal", "probe.same_file_refused", "probe.pre_existing_output", "probe.keygen_mode_checked", "probe.empty_plaintext", "probe.multi_chunk", "probe.fsize_limit_below_output", "probe.fsize_limit_at_or_above_output", "probe.header_refusal_output_untouched", "probe.partial_output_is_prefix", "probe.stdin_input", "probe.several_identity_files", "probe.dash_names"},
+		Probes:      []string{"probe.exit0_complete", "probe.exit_nonzero", "probe.killed_by_signal", "probe.same_file_refused", "probe.pre_existing_output", "probe.keygen_mode_checked", "probe.empty_plaintext", "probe.multi_chunk", "probe.fsize_limit_below_output", "probe.fsize_limit_at_or_above_output", "probe.header_refusal_output_untouched", "probe.partial_output_is_prefix", "probe.stdin_input", "probe.several_identity_files", "probe.dash_names", "probe.pre_existing_symlink"},
 	}
 }
 
@@ -157,6 +158,7 @@ func (C15) Generate(r *core.RNG, tier string, idx uint64) interface{} {
 		}
 	case 7:
 		p.PreExist = true
+		p.PreLink = r.Chance(1, 3)
 		p.OutVia = "file"
 	}
 	if idx%12 == 5 && (p.Fault.Kind == "" || p.Fault.Kind == "fsize") && p.SameAs == "" {
@@ -611,8 +613,17 @@ func (e C15) one(p *C15Plan, fault OutFault, c *core.Ctx, ageBin, kgBin string, 
 	if fault.Kind == "fsize" {
 		fsize = fault.N
 	}
+	linkTarget := ""
 	if p.PreExist && p.SameAs == "" && fault.Kind == "" {
-		os.WriteFile(outPath, pre, 0o644)
+		if p.PreLink && (p.Op == "keygen" || p.Op == "keygen-y") {
+			// -o names a symbolic link to an existing file: still "an existing file"
+			linkTarget = filepath.Join(dir, "d", "existing-target")
+			os.WriteFile(linkTarget, pre, 0o644)
+			os.Symlink(linkTarget, outPath)
+			c.Stats.Inc("probe.pre_existing_symlink")
+		} else {
+			os.WriteFile(outPath, pre, 0o644)
+		}
 		c.Stats.Inc("probe.pre_existing_output")
 	}
 	preIno, _, preOK := fileID(outPath)
@@ -806,6 +817,11 @@ func (e C15) one(p *C15Plan, fault OutFault, c *core.Ctx, ageBin, kgBin string, 
 			if knownLen >= 0 && fault.N >= knownLen && validInput {
 				return core.Fail("C15.spurious_failure", "file size limit %d >= output size %d, valid input, yet exit status %d; stderr %q", fault.N, knownLen, res.exit, san(clipS(res.stderr)))
 			}
+		}
+	}
+	if linkTarget != "" {
+		if b, _ := os.ReadFile(linkTarget); !bytes.Equal(b, pre) || res.exit == 0 {
+			return core.Fail("C15.keygen_overwrote", "age-keygen -o naming a symbolic link to an existing file: exit %d, target intact=%v", res.exit, bytes.Equal(b, pre))
 		}
 	}
 	// keygen never overwrites
